@@ -237,6 +237,12 @@ def _history(rng, core, mode, long=False):
         if r < 0.4:
             if mode == "r":
                 fh = None if rng.random() < 0.7 else fit_fh
+                if rng.random() < 0.25:
+                    # a horizon-dependent forecaster refuses another horizon -- and must then still answer with its own
+                    other = M.rand_fh(rng, "oos", None, maxh + 2)
+                    if sorted(other[1]) != sorted(fit_fh[1]):
+                        ops.append(["pred", other])
+                        fh = None
             else:
                 kind = "oos" if opq or rng.random() < 0.7 else rng.choice(["mixed", "ins"])
                 # opaque forecasters: an absolute horizon only in the last op (it would turn in-sample after updates)
